@@ -45,6 +45,10 @@ Definition obs_arith (args : list str) : str :=
      "T g l1 ... ln"    g senders in tight loops, n events each in round-robin assignment:
                         only the schedule-independent part: per sender the ids in arrival order
      "F n"              AllowFlood: n events, none held, order kept
+     "X linelen l0 .. l4 textlen"  one sender as in S: five events that use the allowance
+                        up (no more), then one PRIVMSG long enough to be split by Send:
+                        pattern of the five / whether the split Send took the sum of its
+                        pieces' costs (every piece is rated and held on its own)
      "P i j"            keep-alives during the preceding S scenario (PONG answered while
                         event i is held, Cmd.Ping while event j is held): number of delays
                         the limiter returned for them / number of keep-alive lines written *)
@@ -107,12 +111,28 @@ Definition obs_keepalive : str :=
   let '(s, ds) := exec (sys0 (mkR (9 * second) 0 0)) (pong_actions e1 ++ ping_actions e2 ++ [ADeliver 1; ADeliver 2]) in
   bs "P=" ++ show_nat (length ds) ++ bs "/" ++ show_nat (length (wire s)).
 
+(* X: the pieces' exact lengths are the splitter's business (C11); any two pieces of the
+   nominal length are each held from the state the five events leave behind *)
+Definition obs_split (args : list Z) : str :=
+  match args with
+  | _ :: l0 :: rest =>
+      let lens := l0 :: firstn 4 rest in
+      let steps := (cost l0, l0, 0) :: map (fun x => (0, x, 0)) (firstn 4 rest) in
+      let '(s1, out) := run_sync (mkR 0 0 0) steps in
+      let pieces := [95; 95] in
+      let '(s2, t) := send_flood false (sys0 s1) (last s1) 0 0 pieces in
+      bs "X=" ++ pattern out ++ bs "/" ++
+      (if t - last s1 =? cost 95 + cost 95 then bs "D" else bs "U")
+  | _ => bs "X=?"
+  end.
+
 Definition obs_scenario (s : str) : str :=
   match s with
   | 83%N :: 32%N :: r => obs_sync (nums r)
   | 84%N :: 32%N :: r => obs_tight (nums r)
   | 70%N :: 32%N :: r => obs_flood (nums r)
   | 80%N :: 32%N :: r => obs_keepalive
+  | 88%N :: 32%N :: r => obs_split (nums r)
   | _ => bs "?scenario"
   end.
 
